@@ -86,7 +86,7 @@ def overlay_for(root: str, case) -> dict[str, str] | None:
             return None
         return _apply_diff(root, p.stdout, reverse=True)
     ov = {}
-    edits = case.get("edits") or [{"file": case["file"], "old": case["old"], "new": case["new"]}]
+    edits = case.get("edits") or [{"file": case["file"], "old": case["old"], "new": case["new"], "count": case.get("count", 1)}]
     for e in edits:
         rel = e["file"]
         text = ov.get(rel)
